@@ -77,6 +77,7 @@ type pxState struct {
 	transport string
 	backend  string
 	seq      int
+	abort2   map[int][3]int // the next N upstream GETs for the resource are cut after k body bytes: {k, remaining, chunked?}
 	abort    map[int]int  // one-shot: the next upstream GET for the resource gets only this many body bytes, then the connection is cut
 	armed    map[int]bool // one-shot: the next upstream request for the resource finds its entry deleted while the origin answers
 }
@@ -142,6 +143,16 @@ func (s *pxState) originHandler(w http.ResponseWriter, r *http.Request) {
 	} else {
 		cutArmed = false
 	}
+	chunkedCut := false
+	if a2, on := s.abort2[resID]; on && r.Method == "GET" && !cutArmed {
+		cut, cutArmed, chunkedCut = a2[0], true, a2[2] == 1
+		a2[1]--
+		if a2[1] <= 0 {
+			delete(s.abort2, resID)
+		} else {
+			s.abort2[resID] = a2
+		}
+	}
 	s.mu.Unlock()
 	if cutArmed && ok && cp.status == 200 {
 		// an origin transfer that fails part-way: full headers and Content-Length, a prefix of the body, then EOF
@@ -151,6 +162,18 @@ func (s *pxState) originHandler(w http.ResponseWriter, r *http.Request) {
 				full := pxBody(resID, cp.ver, cp.size)
 				if cut > len(full) {
 					cut = len(full)
+				}
+				if chunkedCut {
+					// no Content-Length: the body is chunked and the terminating chunk never arrives
+					fmt.Fprintf(bw, "HTTP/1.1 200 OK\r\nTransfer-Encoding: chunked\r\nContent-Type: application/x-rv\r\nX-Origin-Ver: %d\r\nCache-Control: max-age=60\r\n\r\n", cp.ver)
+					if cut > 0 {
+						fmt.Fprintf(bw, "%x\r\n", cut)
+						bw.Write(full[:cut])
+						bw.WriteString("\r\n")
+					}
+					bw.Flush()
+					conn.Close()
+					return
 				}
 				fmt.Fprintf(bw, "HTTP/1.1 200 OK\r\nContent-Length: %d\r\nContent-Type: application/x-rv\r\nX-Origin-Ver: %d\r\nCache-Control: max-age=60\r\n\r\n", len(full), cp.ver)
 				bw.Write(full[:cut])
@@ -369,6 +392,12 @@ func (s *pxState) roundTrip(method string, resID int, hdr [][2]string, query str
 	b, err := io.ReadAll(resp.Body)
 	resp.Body.Close()
 	if err != nil {
+		// an incomplete response: the connection cannot be used again (a client drops it; that the PROXY closes its end
+		// is what the rawreq family's tunnel3 op checks)
+		if s.transport == "tunnel" && s.tunnel != nil {
+			s.tunnel.Close()
+			s.tunnel = nil
+		}
 		return resp, b, err
 	}
 	return resp, b, nil
@@ -468,6 +497,7 @@ func init() {
 					s.res = map[int]*pxRes{}
 					s.armed = map[int]bool{}
 					s.abort = map[int]int{}
+					s.abort2 = map[int][3]int{}
 					s.log = nil
 					s.origin = httptest.NewServer(http.HandlerFunc(s.originHandler))
 					s.proxySrv = httptest.NewServer(p)
@@ -648,6 +678,18 @@ func init() {
 						s.abort = map[int]int{}
 					}
 					s.abort[id] = k
+					s.mu.Unlock()
+					return "armed"
+				case "abort2": // id k chunked(0|1) : EVERY upstream GET of the next exchange (the shared fetch and the direct fallback) is cut after k bytes
+					id, _ := strconv.Atoi(f[2])
+					k, _ := strconv.Atoi(f[3])
+					ch, _ := strconv.Atoi(f[4])
+					o.Count("op:abort2")
+					s.mu.Lock()
+					if s.abort2 == nil {
+						s.abort2 = map[int][3]int{}
+					}
+					s.abort2[id] = [3]int{k, 2, ch}
 					s.mu.Unlock()
 					return "armed"
 				case "arm": // the next upstream request for resource id finds its entry deleted mid-exchange
@@ -844,6 +886,14 @@ func genProxyTrace(c runCfg, o *Out, emit func(...string)) {
 			case x < 68:
 				// an origin transfer that fails part-way, then the same resource again (twice): nothing truncated may be
 				// delivered as complete or come back from the store
+				if r.Chance(40) {
+					// the transfer fails for the shared fetch AND for the fallback: the client cannot get the whole body, and must
+					// be able to tell (a cut connection / an error status), never a well-formed 200 with a shortened body
+					emit("px", "abort2", itoa(id), itoa([]int{1, 100, 776}[r.Intn(3)]), itoa(r.Intn(2)))
+					emit("px", "req", itoa(id), "GET", "-", "-", "-", "0", "-", "-")
+					emit("px", "req", itoa(id), "GET", "-", "-", "-", "0", "-", "-")
+					break
+				}
 				emit("px", "abort", itoa(id), itoa([]int{0, 1, 100, 776, 5000}[r.Intn(5)]))
 				emit("px", "req", itoa(id), "GET", "-", "-", "-", "0", "-", "-")
 				emit("px", "req", itoa(id), "GET", "-", "-", "-", "0", "-", "-")
@@ -854,10 +904,14 @@ func genProxyTrace(c runCfg, o *Out, emit func(...string)) {
 				// a Range request with every form of If-Range against whatever is (or is not) stored: entity tag that
 				// matches / differs, date relative to the resource's Last-Modified, date when the resource has none
 				emit("px", "req", itoa(id), "GET", "-", "-", "-", "0", "-", "-")
-				for k := 0; k < 1+r.Intn(2); k++ {
+				for k := 0; k < 2+r.Intn(3); k++ {
 					ifr := []string{hx(fmt.Sprintf("\"e%d\"", ver)), hx("\"other\""), "lm:0", "lm:-100", "lm:100", hx("garbage"), "dt:0", "dt:-100000", "dt:5000", "-", "empty", "blank"}[r.Intn(12)]
 					rg := hx([]string{"bytes=0-9", "bytes=5-", "bytes=-7", "bytes=0-0", "bytes=2-5"}[r.Intn(5)])
-					emit("px", "req", itoa(id), "GET", rg, ifr, "-", "0", "-", "-")
+					// the same request three times: whatever the proxy decides must not depend on the (random) order in which
+					// Go iterates the request's header map
+					for rep := 0; rep < 3; rep++ {
+						emit("px", "req", itoa(id), "GET", rg, ifr, "-", "0", "-", "-")
+					}
 				}
 			case x < 74:
 				// a revalidation long after expiry, then the same request again: the renewed lifetime counts from the revalidation
